@@ -4,6 +4,7 @@ import (
 	"fmt"
 	"go/token"
 	"go/types"
+	"net/textproto"
 	"sort"
 	"strings"
 
@@ -592,6 +593,42 @@ func checkC06(c *Ctx) {
 					if fr, ok := fieldRefOf(x); ok && fr.Key() != "" && strings.HasPrefix(fr.Key(), "http.Request.") {
 						fields[fr.Name] = true
 					}
+				case *ssa.Lookup:
+					// h[key] on a header map: net/http stores names in canonical form, so a literal
+					// that is not canonical ("X-Real-IP" is stored as "X-Real-Ip") never matches
+					if QualType(namedOf(x.X.Type())) != "http.Header" {
+						return
+					}
+					var keys []string
+					if k, ok := constStr(x.Index); ok {
+						keys = append(keys, k)
+					} else if pm, isParam := x.Index.(*ssa.Parameter); isParam {
+						idx := -1
+						for i, q := range f.Params {
+							if q == pm {
+								idx = i
+							}
+						}
+						for _, caller := range p.Funcs {
+							for _, ci := range callsIn(caller) {
+								if StaticFn(ci) == f && idx >= 0 && idx < len(ci.Common().Args) {
+									if k, ok := constStr(ci.Common().Args[idx]); ok {
+										keys = append(keys, k)
+									} else {
+										bad = append(bad, p.InstrPos(ci)+": header map indexed with a non-constant name")
+									}
+								}
+							}
+						}
+					} else {
+						bad = append(bad, p.InstrPos(x)+": header map indexed with a non-constant name")
+					}
+					for _, k := range keys {
+						hdrKeys[textproto.CanonicalMIMEHeaderKey(k)] = true
+						if textproto.CanonicalMIMEHeaderKey(k) != k {
+							bad = append(bad, p.InstrPos(x)+": the request header map is indexed with \""+k+"\", but net/http stores the name as \""+textproto.CanonicalMIMEHeaderKey(k)+"\": the lookup is always empty and that source of the client address is silently lost (the pick falls back to the next one, e.g. the relaying proxy's address)")
+						}
+					}
 				case ssa.CallInstruction:
 					n := CalleeName(x)
 					switch {
@@ -632,7 +669,7 @@ func checkC06(c *Ctx) {
 			}
 		}
 		for k := range hdrKeys {
-			if k != "X-Forwarded-For" && k != "X-Real-IP" {
+			if ck := textproto.CanonicalMIMEHeaderKey(k); ck != "X-Forwarded-For" && ck != "X-Real-Ip" {
 				bad = append(bad, "header "+k+" influences the pick")
 			}
 		}
@@ -1185,6 +1222,56 @@ func (c *Ctx) flowsFrom(v ssa.Value, hit func(ssa.Value) bool) bool {
 		case *ssa.BinOp:
 			return walk(y.X, d+1) || walk(y.Y, d+1)
 		case *ssa.UnOp:
+			if a, ok := y.X.(*ssa.Alloc); ok && a.Referrers() != nil {
+				// a local variable: whatever was stored into it
+				for _, r := range *a.Referrers() {
+					if st, ok := r.(*ssa.Store); ok && st.Addr == ssa.Value(a) && walk(st.Val, d+1) {
+						return true
+					}
+				}
+				return false
+			}
+			return walk(y.X, d+1)
+		case *ssa.Alloc:
+			// a literal ([]T{a, b}, &S{…}): whatever was stored into its elements / fields
+			if y.Referrers() != nil {
+				for _, r := range *y.Referrers() {
+					var addr ssa.Value
+					switch e := r.(type) {
+					case *ssa.IndexAddr:
+						addr = e
+					case *ssa.FieldAddr:
+						addr = e
+					case *ssa.Store:
+						if e.Addr == ssa.Value(y) && walk(e.Val, d+1) {
+							return true
+						}
+					}
+					if addr != nil && addr.Referrers() != nil {
+						for _, u := range *addr.Referrers() {
+							if st, ok := u.(*ssa.Store); ok && st.Addr == addr && walk(st.Val, d+1) {
+								return true
+							}
+						}
+					}
+				}
+			}
+			return false
+		case *ssa.TypeAssert:
+			return walk(y.X, d+1)
+		case *ssa.MakeInterface:
+			return walk(y.X, d+1)
+		case *ssa.ChangeInterface:
+			return walk(y.X, d+1)
+		case *ssa.Slice:
+			return walk(y.X, d+1)
+		case *ssa.IndexAddr:
+			return walk(y.X, d+1)
+		case *ssa.Index:
+			return walk(y.X, d+1)
+		case *ssa.Next:
+			return walk(y.Iter, d+1)
+		case *ssa.Range:
 			return walk(y.X, d+1)
 		case *ssa.Convert:
 			return walk(y.X, d+1)
